@@ -393,6 +393,39 @@ def T1(ctx, rule="T1", kinds=None):
             ctx.unverifiable(rule, "floor-family|%s" % f, "-", "no public entry point of family %s discovered" % f)
 
 
+def T5(ctx, rule="T5"):
+    """No premature release: every site that releases the done- or ready-sender
+    is control dependent on one of the protocol's exits (empty graph, countdown
+    at 0, interrupted, failed) -- directly or, for a helper, at each of its
+    call sites.  A release under any other condition ends the run while
+    functions are still queued."""
+    m = ctx.model
+    sites = release_sites(ctx)
+    GOOD = ("EMPTY", "FINISHED", "INTERRUPTED", "FAILED")
+    def good(k):
+        return k in GOOD or (k or "").startswith("OR:") and all(x in GOOD for x in k[3:].split("+"))
+    n = 0
+    for s_ in sites:
+        if "via" in s_ or not (s_["roles"] & {"DONE", "READY"}):
+            continue
+        n += 1
+        key = "%s|%s" % ("+".join(sorted(s_["roles"] & {"DONE", "READY"})), short(s_["body"].id))
+        where = m.where(s_["body"], s_["bb"])
+        if good(s_["kind"]):
+            ctx.ok(rule, "release-at-exit|" + key, where, "release of the %s sender at exit %s" % (sorted(s_["roles"]), s_["kind"]))
+            continue
+        lifted = [x for x in sites if x.get("via") is s_ or (x.get("via") is not None and x["via"].get("via") is s_)]
+        final = [x for x in lifted if not any(y.get("via") is x for y in sites)]
+        ok = bool(final) and all(good(x["kind"]) for x in final)
+        ctx.check(ok, rule, "release-at-exit|" + key, where,
+                  "release helper: every call site is at a protocol exit (%s)" % sorted({x["kind"] for x in final}),
+                  "the %s sender is released under a condition that is none of the protocol's exits (%s %s%s): the run / stream ends while functions are still queued" % (
+                      sorted(s_["roles"] & {"DONE", "READY"}), s_["kind"], s_["detail"][:80],
+                      "; call sites: %s" % sorted({str(x["kind"]) for x in final}) if final else ""))
+    if n < 4:
+        ctx.unverifiable(rule, "floor", "-", "expected release sites of the protocol senders, found %d" % n)
+
+
 def T1_try_fold_failed(ctx, rule, e, where):
     m, fl = ctx.model, ctx.model.flow
     ok = True
